@@ -25,6 +25,16 @@ CLAIMED = {
     note=TB + "num and den are not exposed by the API: the comparison is on the percentage within 0.006. den = 0 (only zero-length communication kernels) is 0/0 in the code and undefined in the statement; agreed outcome NaN.",
     technique="Lean 4 proof (marker sweep = unit-cell measure) + model/implementation correspondence",
     design="7/C07"),
+  "C06": dict(
+    text="Lean 4 theorems: C06_stream_order (for non-overlapping kernels, in any order sort_values(by=[ts,dur]) may return, every earlier kernel ends no later than every later one starts, so list-consecutive = stream-consecutive), C06_gaps_nonneg, C06_classify_rule (host_wait / kernel_wait / other exactly by the documented rule, with strict > and <), C06_categories_partition and C06_idle_telescopes / C06_analyze_total (categories add up to span minus busy time). Tied to get_idle_time_breakdown by a differential run over ranks, stream subsets and thresholds equal to generated gaps, plus an independent Python oracle phrased through the correlation links.",
+    note=TB + "idle_time compared exactly; idle_time_ratio against round(idle/total,2) within 0.006 (float division not modelled). The lookup of the launch call's start goes through index_correlation as in the code.",
+    technique="Lean 4 proof (pairwise order argument, telescoping sum, case analysis) + model/implementation correspondence",
+    design="7/C06"),
+  "C14": dict(
+    text="Lean 4 theorems for any marker list sorted by (ts ascending, queue descending): C14_queue_last_of_instant (after the last row of an instant the series equals launches-so-far minus starts-so-far over linked pairs), C14_queue_ends_zero, C14_queue_nonneg (no row, including transient rows inside an instant, is negative when no activity starts before its launch), C14_bw_last_of_instant / C14_bw_active_nonneg (bandwidth series = sum of bandwidths of active copies, zero-length copies widened to one unit), C14_counter_events (counter events reproduce the series at ts + min_ts). Tied to get_queue_length_time_series, get_memory_bw_time_series and generate_trace_with_counters by a differential run and a Python oracle.",
+    note=TB + "Bandwidths are generated as dyadic rationals so float accumulation is exact; IEEE accumulation of arbitrary values and non-negativity of transient bandwidth rows inside an instant are exercised, not proved (partial for that clause).",
+    technique="Lean 4 proof (prefix sums over a lexicographically sorted marker list; step-function lemmas) + model/implementation correspondence",
+    design="7/C14"),
   "C15": dict(
     text="Lean 4 theorem C15_rows_exact: under the well-formedness hypothesis (a correlation id pairs at most one host call with one device activity) the launch-statistics rows are exactly the (selected launch call, device activity) pairs with equal correlation, each once, with the two durations and delay = max 0 (activity start - call end). Tied to get_cuda_kernel_launch_stats by a differential run (multiset of rows) and an independent Python oracle phrased through index_correlation links.",
     note=TB + "Row order is not compared.",
